@@ -127,6 +127,7 @@ def r_C04a(root):
 # ---------------------------------------------------------------------------------------------------------------
 PY_INT = r"-?[0-9]+"                                                              # str(int)
 PY_FLOAT = r"-?(?:[0-9]+\.[0-9]+(?:e[+-][0-9]+)?|[0-9]+e[+-][0-9]+)"             # repr(float) of a finite float
+WRITTEN_FLOAT = r"[-+]?(?:(?:[0-9]+\.[0-9]*|\.[0-9]+)(?:[eE][-+]?[0-9]+)?|[0-9]+[eE][-+]?[0-9]+)"
 def r_C04num(root):
     """C04.d  the numeric base-type regexes against the *writer* they must accept (Python's own int/float printing):
        L(str(int)) within L(INT);  L(repr(finite float)) within L(FLOAT) and within L(STRICTFLOAT)  (core languages: the
@@ -148,6 +149,21 @@ def r_C04num(root):
         ob("C04", "C04.d", L, k, "%s within L(%s)" % (sub_name, k), ok)
         if not ok: out.append(Finding("C04", "C04.d", L, k, regs[k][:90], "%s is not accepted by %s: %r is printed by Python but not in the language of the pattern" % (sub_name, k, w), witness="value %s" % w))
     need(PY_INT, "str(int)", "INT"); need(PY_FLOAT, "repr(float)", "FLOAT"); need(PY_FLOAT, "repr(float)", "STRICTFLOAT")
+    # "any finite float written with a '.' or an exponent": every such spelling, not only Python's own
+    need(WRITTEN_FLOAT, "a float written with '.' or exponent", "FLOAT"); need(WRITTEN_FLOAT, "a float written with '.' or exponent", "STRICTFLOAT")
+    need(r"[-+]?[0-9]+", "a signed decimal integer", "INT")
+    # C04.f  use_regexp_group (C01.g) takes group 1 as the value when the pattern has exactly one group: a base-type pattern
+    #        must not have exactly one capturing group unless that group spans everything the pattern consumes
+    for k in sorted(regs):
+        if regs[k] is None: continue
+        try: tree = sre.parse(regs[k])
+        except Exception: continue
+        if tree.state.groups - 1 != 1: continue
+        inst += 1
+        items = [it for it in tree if not (it[0] in (sc.AT, sc.ASSERT, sc.ASSERT_NOT))]
+        whole = len(items) == 1 and items[0][0] is sc.SUBPATTERN and items[0][1][0] == 1
+        ob("C04", "C04.f", L, k, "single capturing group of %s spans the whole match" % k, whole)
+        if not whole: out.append(Finding("C04", "C04.f", L, k, regs[k][:90], "the pattern of %s has exactly one capturing group that does not span the whole match: with use_regexp_group=True the converted text is only that group (a sign / prefix outside the group is dropped)" % k, witness="use_regexp_group=True and a value with the part outside the group, e.g. -7"))
     inst += 1
     w = rx.common_word(rx.Nfa(r"[-+]?[0-9]*"), nf["STRICTFLOAT"])
     ob("C04", "C04.d", L, "STRICTFLOAT", "no sign/digit-only word in L(STRICTFLOAT)", w is None)
